@@ -30,7 +30,7 @@ CHECKS["C10"] = dict(
 CHECKS["C17"] = dict(
    category="exploration", engine="B small-scope exhaustive + BFS over reference PDA states",
    technique="exhaustive enumeration of all file contents up to 7/8 bytes over 5 symbols x all positions against a reference renderer; BFS over reference PDA states for error positions",
-   text="(a) Every file content of length 0..7 (thorough 8) over {a,space,tab,LF,CR} with every position inside it is rendered through the public DocumentError API; no rendering may panic, and for consistently terminated files line number, left-trimmed text and caret column must equal a reference renderer; line-length families around the 200-byte cut. (b) For every reference-PDA state (nesting <= 4/6) and every string <= 4/5 symbols: the error position of the first dead byte and of an early end of input. (c) every rule-free schema <= 3/4 nodes and every depth-5 spine with ONE planted violation at every node (value of another kind, unknown key) plus 14 single-rule breakers in 9 contexts: the reported position is the start of the planted value / key. (d) one error value rendered, moved with SetIndex and rendered again must show what a fresh error shows (all contents <= 5/6 bytes x all position pairs).",
+   text="(a) Every file content of length 0..7 (thorough 8) over {a,space,tab,LF,CR} with every position inside it is rendered through the public DocumentError API; no rendering may panic, and for consistently terminated files line number, left-trimmed text and caret column must equal a reference renderer; line-length families around the 200-byte cut. (b) For every reference-PDA state (nesting <= 4/6) and every string <= 4/5 symbols: the error position of the first dead byte and of an early end of input. (c) every rule-free schema <= 3/4 nodes and every depth-5 spine with ONE planted violation at every node (value of another kind, unknown key) plus 14 single-rule breakers in 9 contexts: the reported position is the start of the planted value / key. (e) errors passed through kit.ConvertError keep file, position, code and rendering, for named and unnamed documents. (d) one error value rendered, moved with SetIndex and rendered again must show what a fresh error shows (all contents <= 5/6 bytes x all position pairs).",
    note="Trusted: the 100-line reference renderer. Not asserted: mixed LF/CR files' line numbers, caret inside leading blanks or on blank-only lines, positions for blank-only input.",
    design="4/C17")
 CHECKS["C01"] = dict(
@@ -50,35 +50,35 @@ CHECKS["C02"] = dict(
 CHECKS["C08"] = dict(
    category="exploration", engine="B small-scope enumeration, permutation-invariance + reference predicate",
    technique="exhaustive enumeration of rule subsets x parameter variants x ALL permutations; metamorphic order-invariance plus three-valued reference applicability predicate",
-   text="10 node kinds x 3 positions x all subsets of <= 3 (thorough 4) of 18 rule names plus an unknown name and duplicated names x parameter variants, each compiled in every permutation: Check's verdict must not depend on the order, and must equal the applicability/consistency predicate written from the statement wherever that predicate is decided; plus scalar examples with rule sets of <= 3 (4) names from the kind's applicable pool with boundary parameters, which supply the well-formed (accept-side) cases.",
+   text="10 node kinds x 3 positions x all subsets of <= 3 (thorough 4) of 18 rule names plus an unknown name and duplicated names x parameter variants, each compiled in every permutation and under both key-optionality configurations (Check asked twice per object): Check's verdict must not depend on the order, and must equal the applicability/consistency predicate written from the statement wherever that predicate is decided; plus scalar examples with rule sets of <= 3 (4) names from the kind's applicable pool with boundary parameters, which supply the well-formed (accept-side) cases.",
    note="Trusted: ref/wf predicate and ref/refv. Error codes are not compared; statement-silent combinations are Unspecified (listed in the evidence assumptions).",
    design="4/C08")
 
 CHECKS["C04"] = dict(
    category="exploration", engine="B small-scope enumeration of slots x contexts x single-rule corruptions",
    technique="exhaustive enumeration of annotated slots in nesting contexts with every single-rule corruption of the example; renderer offset map as position oracle",
-   text="39 annotated slots (every rule family incl. formats, enum, or, type references, item counts, empty containers under type lists) x 17 nesting contexts (incl. siblings carrying type lists of their own) x every single-rule corruption of the example: Check must fail and report the byte offset of the corrupted value; conversely all shapes <= 3 (4) nodes with every scalar leaf replaced by every slot, and every slot in every context: whenever Check succeeds, validating the example text succeeds; EVERY ordered pair of slots as siblings (both good; one of the two corrupted in every way: Check must fail at the corrupted one, also when asked a second time on the same object).",
+   text="annotated slots (every rule family incl. formats, enum, or, type references - each also with nullable: true -, item counts, empty containers under type lists; a systematic family of every rule set <= 3/4 names x every example candidate the reference rejects) x 17 nesting contexts (incl. siblings carrying type lists of their own) x every single-rule corruption of the example: Check must fail and report the byte offset of the corrupted value; conversely all shapes <= 3 (4) nodes with every scalar leaf replaced by every slot, and every slot in every context: whenever Check succeeds, validating the example text succeeds; EVERY ordered pair of slots as siblings (both good; one of the two corrupted in every way: Check must fail at the corrupted one, also when asked a second time on the same object).",
    note="Trusted: the renderer's offset map. Error codes are not asserted; positions inside added types are not asserted.",
    design="4/C04")
 
 CHECKS["C14"] = dict(
    category="exploration", engine="B small-scope enumeration of texts x separators x trailing texts",
    technique="exhaustive product of accepted texts x separators x directive-like trailing texts; every truncation classified by the reference PDA",
-   text="Every accepted text of a corpus built from all rule-free JS-core renderings <= 3 (4) nodes in two layouts, annotated and noted variants ending in every token class, type shortcuts, enum texts and regex tokens, followed by each of 9 separators and 11 trailing texts admitted by the statement: Len must be exactly len(S) for schema, JSON document (trailing characters allowed), enum and regex roles, on fresh objects and on objects used before (after Check/GetAST/Values/Pattern, after the document stream was read to its end); every lexically incomplete truncation must make Len fail.",
+   text="Every accepted text of a corpus built from all rule-free JS-core renderings <= 3 (4) nodes in two layouts, annotated and noted variants ending in every token class, type shortcuts, enum texts and every regex token with a body <= 4 symbols over {a, \\, /, .} (acceptance decided by the reference; a rejected corpus text is a violation), followed by each of 9 separators and 11 trailing texts admitted by the statement: Len must be exactly len(S) for schema, JSON document (trailing characters allowed), enum and regex roles, on fresh objects and on objects used before (after Check/GetAST/Values/Pattern, after the document stream was read to its end); every lexically incomplete truncation must make Len fail.",
    note="Trusted: reference PDA for incompleteness. Not generated: trailing text that could continue S; blank-only inputs.",
    design="4/C14")
 
 CHECKS["C06"] = dict(
    category="exploration", engine="B exhaustive strings/values x whitespace placements, reference tokenizer, cross-scanner differential",
    technique="exhaustive enumeration of valid JSON texts (all strings <= 5/6 symbols; all values <= 4/5 nodes x all placements of <= 2/3 whitespace gaps; depth-8 families; every escape form in values and keys) with an event-automaton oracle and a three-scanner differential",
-   text="For every enumerated valid JSON text the public NextLexeme stream is replayed through an event automaton that checks nesting, termination by io.EOF, spans inside the input, literal/key spans equal to the reference tokenizer's, container spans bracket to bracket, and that the value rebuilt from events alone equals the reference parse; the schema scanner and (for arrays of scalars) the enum scanner, driven through verif hooks on the same text in four embeddings, must produce the same (type, begin, end) sequence modulo new-line events; for pairs of small documents read in turns, ALL merges of the two NextLexeme call sequences must deliver each document's own events.",
+   text="For every enumerated valid JSON text the public NextLexeme stream (of a fresh document and of one on which Len or Check ran before) is replayed through an event automaton that checks nesting, termination by io.EOF, spans inside the input, literal/key spans equal to the reference tokenizer's, container spans bracket to bracket, and that the value rebuilt from events alone equals the reference parse; the schema scanner and (for arrays of scalars) the enum scanner, driven through verif hooks on the same text in four embeddings, must produce the same (type, begin, end) sequence modulo new-line events; for pairs of small documents read in turns, ALL merges of the two NextLexeme call sequences must deliver each document's own events.",
    note="Trusted: ref/jsonpda tokenizer/parser (cross-checked against encoding/json on every input). Exponent numerals are excluded from the cross-scanner relation.",
    design="4/C06")
 
 CHECKS["C18"] = dict(
    category="exploration", engine="B small-scope enumeration, named-vs-inline differential",
    technique="exhaustive enumeration of enum value lists x layouts and of all compilable regex sources up to 4/5 symbols; metamorphic named == inline == regexp",
-   text="All enum value lists of <= 3 (4) items over 7 literals (duplicates included) in 7 layouts: the named rule and the inline list must give identical verdicts on 14 probes, duplicates must make the rule's Check fail, Values()/GetAST() must list the literals in source order; one rule object referenced twice in a schema and added to a second schema must behave like the inline list and be unchanged afterwards. All strings <= 4 (5) over a 16-symbol regex alphabet that regexp.Compile accepts: the regex type, the inline {regex} rule and regexp.MatchString must agree on all 156 probe strings <= 3 over {a,b,/,\",\\}; Example() matches the pattern; Len equals the /P/ token length with trailing text.",
+   text="All enum value lists of <= 3 (4) items over 10 literals (duplicates, a string spelling a float, escapes) in 9 layouts (incl. empty comments): the named rule and the inline list must give identical verdicts on 14 probes, duplicates must make the rule's Check fail, Values()/GetAST() must list the literals in source order; one rule object referenced twice in a schema and added to a second schema must behave like the inline list and be unchanged afterwards. All strings <= 4 (5) over a 16-symbol regex alphabet that regexp.Compile accepts: the regex type, the inline {regex} rule and regexp.MatchString must agree on all 156 probe strings <= 3 over {a,b,/,\",\\}; Example() matches the pattern; Len equals the /P/ token length with trailing text.",
    note="Trusted: Go regexp. The third-party example generator ignores anchors, so 'Example matches P' is asserted only for patterns without inner anchors.",
    design="4/C18")
 
@@ -92,14 +92,14 @@ CHECKS["C09"] = dict(
 CHECKS["C03"] = dict(
    category="exploration", engine="B small-scope enumeration of type environments x root constructs x documents",
    technique="exhaustive enumeration of four construct families (type references/or, allOf, additionalProperties, key shortcuts) x all small documents against a three-valued set-semantics reference, plus union differential",
-   text="All ordered pairs of user types from a 10-body pool plus a derived alias/or type x 15 root constructs (also rule-sets with nullable next to a type reference) x nullable x 6 positions x all documents <= 3 nodes (all arrays <= 3 elements for array positions); 9 allOf configurations x 4 additionalProperties settings x both configs x all 1024 objects over 5 keys; 13 additionalProperties settings x shapes x 150 objects; 5 key types x optionality x layouts x all objects with <= 3 members over 6 keys. The library verdict must equal the reference union/conjunction semantics and verdict(@A|@B) must equal verdict(@A) or verdict(@B).",
+   text="All ordered pairs of user types from a 10-body pool plus a derived third type (alias, or, nullable alias, nullable or-alias) x 15 root constructs (also rule-sets with nullable next to a type reference) x nullable x 6 positions x all documents <= 3 nodes (all arrays <= 3 elements for array positions); 9 allOf configurations x 4 additionalProperties settings x both configs x all 1024 objects over 5 keys; 13 additionalProperties settings x shapes x 150 objects; 5 key types x optionality x layouts x all objects with <= 3 members over 6 keys. The library verdict must equal the reference union/conjunction semantics and verdict(@A|@B) must equal verdict(@A) or verdict(@B).",
    note="Trusted: ref/refv. Unspecified (counted in the evidence): cardinality/precedence of shortcut matches, presence of non-optional shortcut entries, rule-less key types, integer under additionalProperties float.",
    design="4/C03")
 
 CHECKS["C15"] = dict(
    category="exploration", engine="B small-scope enumeration over the merged schema corpus (C01/C03/C04/C09 generators + hostile keys)",
    technique="exhaustive enumeration of all Check-accepted generated schemas; well-formedness by reference PDA + encoding/json, self-validation, compact-equality",
-   text="Every Check-accepted case of the merged generators (all rule-free schemas <= 3/4 nodes in both configs, type-reference/or/allOf/additionalProperties/key-shortcut families, 34 rule slots x 13 contexts, all fully inhabited type graphs over 1-2 types and ring/diamond families with optional/array/terminating edges, the deep family of two types with every pair of slots per object body, hostile keys and strings with every control character): Example() must succeed, be well-formed JSON, be accepted by its own schema, and equal the compact example for plain-JSON schemas.",
+   text="Every Check-accepted case of the merged generators (all rule-free schemas <= 3/4 nodes in both configs, type-reference/or/allOf/additionalProperties/key-shortcut families, 34 rule slots x 13 contexts, all fully inhabited type graphs over 1-2 types (arrays with the reference first / last) and ring/diamond families with optional/array/terminating edges, the deep family of two types with every pair of slots per object body, hostile keys and strings with every control character): Example() must succeed, be well-formed JSON, be accepted by its own schema, and equal the compact example for plain-JSON schemas.",
    note="Trusted: reference PDA, encoding/json. Known finding (class decided by the check: a simulation of the documented cut-off policy itself yields a rejected example): recursion cut-off at required positions / first alternative gives self-rejected or empty examples.",
    design="4/C15")
 
@@ -113,7 +113,7 @@ CHECKS["C16"] = dict(
 CHECKS["C13"] = dict(
    category="exploration", engine="B small-scope enumeration x full product of spelling dimensions (metamorphic)",
    technique="exhaustive product of 324 schema spellings + notes + rule permutations over generated accepted and rejected schemas; document re-spellings x property permutations x escape spellings; reference-free equality of verdicts and ASTs",
-   text="Accepted and rejected schemas (rule slots x contexts x corruptions, construct families, rule sets on 10 node kinds, or rule-sets with every nested rule name) are rendered in the full product of line end x indentation x user comments x annotation form x quoted/bare rule names x trailing comma (a # comment also follows inline annotations and notes), with notes added under the full product of line end x comments x annotation form, and in every rule order: Check's verdict, the AST with comments blanked and the verdict of 22 probe documents plus the example must equal the canonical spelling's. Probe documents are re-spelled (4 whitespace layouts x all property orders x plain / \\uXXXX / \\/ string spellings): the verdict must not change under any schema.",
+   text="Accepted and rejected schemas (rule slots x contexts x corruptions, construct families, rule sets on 10 node kinds, or rule-sets with every nested rule name, the AST family, every kind of rule value as first / last rule) are rendered in the full product of line end x indentation x user comments x annotation form x quoted/bare rule names x trailing comma (a # comment also follows inline annotations and notes), with notes added under the full product of line end x comments x annotation form, and in every rule order: Check's verdict, the AST with comments blanked and the verdict of 22 probe documents plus the example must equal the canonical spelling's. Probe documents are re-spelled (4 whitespace layouts x all property orders x plain / \\uXXXX / \\/ string spellings): the verdict must not change under any schema.",
    note="Reference-free. Not generated: comments inside rule objects, blanks inside empty brackets.",
    design="4/C13")
 
@@ -134,7 +134,7 @@ CHECKS["C12"] = dict(
 CHECKS["C11"] = dict(
    category="model_checking", engine="A/D exhaustive operation histories on live objects + environment-choice exploration (pool answers, map iteration orders) through the build overlay",
    technique="exhaustive enumeration of all operation histories up to depth 3/4 over a pool of live objects against fresh-object results with returned-value snapshots; exhaustive single (thorough: double) deviations of every sync.Pool answer and of every dynamic range-over-map order",
-   text="All histories of <= 3 (thorough 4) operations from a 57-operation alphabet over live Schema/Document/Enum/Regex objects (incl. lexically broken schema and enum rule, an enum rule object shared with the schema that uses it, an embedded document with trailing text, Validate / NextLexeme on live document objects and Len/Check on consumed ones) (plus 12-fold repetitions and round-robins): every result must equal the fresh-object result and every value handed out must be unchanged at the end; for histories <= 2 every pool answer is additionally deviated (fresh / oldest object); ALL merges of the NextLexeme call sequences of two live documents must deliver each document's own events. The library is built through an overlay that rewrites every range-over-map into iteration over an explicitly ordered key list: for a corpus of scenarios (a fixed slice of the C03/C09 generators in quick, all in thorough; multi-shortcut objects, allOf chains, errors located inside added types and allOf parents) every single (thorough: pair of) dynamic iteration order deviation (descending, rotations) must leave verdict, code, position, file and renderability of errors, AST, example and used types unchanged; static sites never reached with two keys are reported as uncovered.",
+   text="All histories of <= 3 (thorough 4) operations from a 59-operation alphabet over live Schema/Document/Enum/Regex objects (incl. lexically broken schema and enum rule, an enum rule object shared with the schema that uses it, an embedded document with trailing text, Validate / NextLexeme on live document objects and Len/Check on consumed ones) (plus 12-fold repetitions and round-robins): every result must equal the fresh-object result and every value handed out must be unchanged at the end; for histories <= 2 every pool answer is additionally deviated (fresh / oldest object); ALL merges of the NextLexeme call sequences of two live documents must deliver each document's own events. The library is built through an overlay that rewrites every range-over-map into iteration over an explicitly ordered key list: for a corpus of scenarios (a fixed slice of the C03/C09 generators in quick, all in thorough; multi-shortcut objects, allOf chains, errors located inside added types and allOf parents) every single (thorough: pair of) dynamic iteration order deviation (descending, rotations) must leave verdict, code, position, file and renderability of errors, AST, example and used types unchanged; static sites never reached with two keys are reported as uncovered.",
    note="Trusted: the overlay rewrite (sound: every produced order is a legal Go order). Message text is not compared. Consumed Document objects are not re-validated.",
    design="4/C11")
 
